@@ -290,7 +290,7 @@ def event_scn(sym, cov, W, cancel=None, eager=False, T=2, J=2):
 def units(tier):
     quick = tier == "quick"
     us = []
-    B = 100 if quick else 1500
+    B = 240 if quick else 1500
     for nq in range(0, 4):
         us.append({"name": "A notify nq=%d" % nq, "fn": cond_step, "params": {"nq": nq, "op": "notify"}, "budget_s": 60, "certify": True})
         us.append({"name": "A notify_all nq=%d" % nq, "fn": cond_step, "params": {"nq": nq, "op": "all"}, "budget_s": 60})
